@@ -7,6 +7,7 @@ Model of the room API request path (C11):
   /repo/api_backend.go     BackendServerRoomRequest (+ CheckValid) and its sub-objects
   /repo/room.go            Room.processBackendRoomRequestRoom, UpdateProperties, PublishUsersInCallChanged(All),
                            PublishUsersChanged, addInternalSessions, publishRoomMessage, publishSwitchTo
+  /repo/virtualsession.go  ProcessAsyncSessionMessage (a disinvite becomes a hang-up order), SetRoom (room session id)
   /repo/hub.go             Hub.Run hand-over and processRoomUpdated/Deleted/InCallChanged/Participants
   /repo/clientsession.go   filterMessage (participants update), CloseAfterSend (disinvite)
 
@@ -31,6 +32,7 @@ processBackendRoomRequestRoom (it can only drop a message), secondary join/leave
 between several members of a room (C04/C05), media permissions (C08).
 -/
 import SigModel.Generated.ShapesBackend
+import SigModel.Generated.LockBalance
 
 namespace SigModel.ShapesBackend
 
@@ -225,28 +227,45 @@ def DialoutEnv.status : DialoutEnv → Nat
   | .otherType => 502
   | .timeout => 504
 
-/-- A client session on this hub. -/
+/-- What kind of session: a websocket client of a user, an internal client (SIP bridge, recorder),
+or a virtual session an internal client added to a room (no connection of its own). -/
+inductive Kind where
+  | client | internal | virtual
+  deriving DecidableEq, Repr
+
+/-- A session on this hub. -/
 structure Sess where
   pub : String                    -- public session id
   user : String                   -- authenticated user id ("" = anonymous: no user subject)
-  rsid : Option String := none    -- `some x`: member of the room, with Nextcloud session id `x`
-  inCall : Bool := false          -- in the room's inCallSessions
+  kind : Kind := .client
+  room : Option String := none    -- the room it is a member of
+  rsid : String := ""             -- Nextcloud session id it joined with ("" = none: not resolvable)
+  inCall : Bool := false          -- in the inCallSessions of its room
   deriving DecidableEq, Repr
 
-/-- One hub, one backend, at most one room with members. -/
+/-- Has a connection that receives events. -/
+def Sess.connected (s : Sess) : Bool := s.kind != .virtual
+
+/-- One hub, one backend, any number of rooms: a room exists while it has members. -/
 structure World where
-  roomId : String
   sessions : List Sess := []
-  props : String := ""            -- Room.properties
+  props : List (String × String) := []    -- Room.properties of the existing rooms
   dialout : DialoutEnv := .noClient
   deriving DecidableEq, Repr
 
-def World.members (w : World) : List Sess := w.sessions.filter (·.rsid.isSome)
-def World.roomExists (w : World) : Bool := !w.members.isEmpty
+def World.members (w : World) (room : String) : List Sess := w.sessions.filter (·.room = some room)
+def World.roomExists (w : World) (room : String) : Bool := !(w.members room).isEmpty
+def World.propsOf (w : World) (room : String) : String := (w.props.lookup room).getD ""
+def World.setProps (w : World) (room p : String) : World :=
+  { w with props := (room, p) :: w.props.filter (·.1 != room) }
 
-/-- `roomSessions.LookupSessionId`: Nextcloud session id → public session id (`none` = ErrNoSuchRoomSession). -/
+/-- A room whose last member is gone is removed, its properties with it. -/
+def World.gc (w : World) : World := { w with props := w.props.filter (fun p => w.roomExists p.1) }
+
+/-- `roomSessions.LookupSessionId`: Nextcloud session id → public session id (`none` = ErrNoSuchRoomSession).
+The entry exists from the join to the leave of the session. -/
 def World.lookup (w : World) (rs : String) : Option String :=
-  (w.sessions.find? (fun s => s.rsid = some rs)).map (·.pub)
+  (w.sessions.find? (fun s => s.room.isSome && s.rsid = rs && rs != "")).map (·.pub)
 
 /-! ## Publications and events -/
 
@@ -254,6 +273,9 @@ inductive Ev where
   | roomlistInvite | roomlistUpdate
   | roomlistDisinvite (room : String)
   | roomProps | roomLeft | roomMessage | switchTo | participantsUpdate
+  | roomLeave                              -- "another session left your room" (after a disinvite closed it)
+  | roomDelete                             -- told to the internal clients of a room that is deleted
+  | control                                -- "hang up": to the internal client whose virtual session is disinvited
   | closed                                 -- connection closed by the server after a disinvite
   deriving DecidableEq, Repr
 
@@ -440,10 +462,13 @@ def isInCall : Val → Option Bool
   | .num n => some (n % 2 = 1)
   | _ => none
 
-def toMembers (w : World) (ev : Ev) : List Event := w.members.map (fun s => ⟨s.pub, ev⟩)
+/-- A room event: every member with a connection receives it. -/
+def toMembers (w : World) (room : String) (ev : Ev) : List Event :=
+  ((w.members room).filter (·.connected)).map (fun s => ⟨s.pub, ev⟩)
 
-/-- The state part of `PublishUsersInCallChanged`. -/
-def applyInCall (ss : List Sess) : List Entry → List Sess
+/-- The state part of `PublishUsersInCallChanged`: only members of the room can be in its call
+(`r.HasSession`); an entry naming any other session of the hub is skipped. -/
+def applyInCall (room : String) (ss : List Sess) : List Entry → List Sess
   | [] => ss
   | e :: es =>
     let ss' :=
@@ -457,56 +482,62 @@ def applyInCall (ss : List Sess) : List Entry → List Sess
             | some x => some x
             | none => e.get "sessionid"
           match sidV with
-          | some (.str sid) => ss.map (fun s => if s.pub = sid then { s with inCall := b } else s)
+          | some (.str sid) => ss.map (fun s => if s.pub = sid && s.room = some room then { s with inCall := b } else s)
           | _ => ss
-    applyInCall ss' es
+    applyInCall room ss' es
 
-/-- `PublishUsersInCallChangedAll` -/
-def inCallAll (w : World) (flags : Int) : CRes :=
+/-- `PublishUsersInCallChangedAll`: joining concerns the user clients of the room (internal clients
+and virtual sessions are passed over); leaving empties the call whoever is in it and tells every
+member with a connection. -/
+def inCallAll (w : World) (room : String) (flags : Int) : CRes :=
+  let users := (w.members room).filter (·.kind = .client)
   if flags % 2 = 1 then
-    if w.members.all (·.inCall) then { world := w }       -- nobody joined: no notification
-    else { world := { w with sessions := w.sessions.map (fun s => if s.rsid.isSome then { s with inCall := true } else s) },
-           events := toMembers w .participantsUpdate }
-  else if w.members.any (·.inCall) then
-    { world := { w with sessions := w.sessions.map (fun s => if s.rsid.isSome then { s with inCall := false } else s) },
-      events := toMembers w .participantsUpdate }
+    if users.all (·.inCall) then { world := w }       -- nobody joined: no notification
+    else { world := { w with sessions := w.sessions.map (fun s =>
+                        if s.room = some room && s.kind = .client then { s with inCall := true } else s) },
+           events := users.map (fun s => ⟨s.pub, .participantsUpdate⟩) }
+  else if (w.members room).any (·.inCall) then
+    { world := { w with sessions := w.sessions.map (fun s => if s.room = some room then { s with inCall := false } else s) },
+      events := toMembers w room .participantsUpdate }
   else { world := w }
 
 /-- `Room.processBackendRoomRequestRoom` and what it hands to the hub main loop. -/
 def consumeRoom (w : World) (room : String) (m : Request) : CRes :=
-  if room ≠ w.roomId || !w.roomExists then { world := w } else      -- no subscriber for the subject
+  if !w.roomExists room then { world := w } else                     -- no subscriber for the subject
   if m.type = "update" then
     match m.update with
     | none => { world := w, crash := true }                          -- message.Update.Properties (Hub.Run)
     | some u =>
-      if w.props = u.properties then { world := w }
-      else { world := { w with props := u.properties }, events := toMembers w .roomProps }
+      if w.propsOf room = u.properties then { world := w }
+      else { world := w.setProps room u.properties, events := toMembers w room .roomProps }
   else if m.type = "delete" then
-    { world := { w with sessions := w.sessions.map (fun s => { s with rsid := none, inCall := false }), props := "" },
-      events := toMembers w .roomLeft }
+    { world := ({ w with sessions := w.sessions.map (fun s =>
+                    if s.room = some room then { s with room := none, rsid := "", inCall := false } else s) } : World).gc,
+      events := toMembers w room .roomLeft ++
+        ((w.members room).filter (·.kind = .internal)).map (fun s => ⟨s.pub, .roomDelete⟩) }    -- notifyInternalRoomDeleted
   else if m.type = "incall" then
     match m.inCall with
     | none => { world := w, crash := true }                          -- message.InCall.All (Hub.Run)
     | some ic =>
       if ic.all then
         match ic.inCall with
-        | .int n => inCallAll w n
-        | .bool b => inCallAll w (if b then 1 else 0)
+        | .int n => inCallAll w room n
+        | .bool b => inCallAll w room (if b then 1 else 0)
         | _ => { world := w }
       else if !entriesOk (ic.users ++ ic.changed) then
         { world := w, crash := true }                                -- entry["sessionId"].(string)
-      else { world := { w with sessions := applyInCall w.sessions ic.changed },
-             events := toMembers w .participantsUpdate }
+      else { world := { w with sessions := applyInCall room w.sessions ic.changed },
+             events := toMembers w room .participantsUpdate }
   else if m.type = "participants" then
     match m.participants with
     | none => { world := w, crash := true }                          -- message.Participants.Changed (Hub.Run)
     | some p =>
       if !entriesOk (p.users ++ p.changed) then { world := w, crash := true }
-      else { world := w, events := toMembers w .participantsUpdate }
+      else { world := w, events := toMembers w room .participantsUpdate }
   else if m.type = "message" then
     match m.message with
     | none => { world := w }                                         -- publishRoomMessage: `message == nil`
-    | some msg => if msg.data = "" then { world := w } else { world := w, events := toMembers w .roomMessage }
+    | some msg => if msg.data = "" then { world := w } else { world := w, events := toMembers w room .roomMessage }
   else if m.type = "switchto" then
     match m.switchTo with
     | none => { world := w, crash := true }                          -- publishSwitchTo: len(message.SessionsList)
@@ -514,7 +545,7 @@ def consumeRoom (w : World) (room : String) (m : Request) : CRes :=
       { world := w,
         events := (s.sessionsList ++ s.sessionsMap).flatMap (fun sid =>
           -- filterAsyncMessage: an event with target "room" is dropped by a session that joined no room
-          (w.sessions.filter (fun x => x.pub = sid && x.rsid.isSome)).map (fun x => ⟨x.pub, .switchTo⟩)) }
+          (w.sessions.filter (fun x => x.pub = sid && x.room.isSome && x.connected)).map (fun x => ⟨x.pub, .switchTo⟩)) }
   else if m.type = "transient" then
     match m.transient with
     | none => { world := w, crash := true }                          -- message.Transient.Action
@@ -522,21 +553,37 @@ def consumeRoom (w : World) (room : String) (m : Request) : CRes :=
   else { world := w }
 
 /-- A message to one session: sent; a disinvite for the room the session is in closes it
-(`CloseAfterSend`), which removes the session. -/
+(`CloseAfterSend`), which removes the session -- and, when it is an internal client, the virtual
+sessions it added.  The members that stay are told who left (and, for an internal client, get the
+new participants list). -/
 def sendTo (w : World) (targets : List Sess) (ev : Ev) : CRes :=
   let closes (s : Sess) : Bool :=
     match ev with
-    | .roomlistDisinvite r => s.rsid.isSome && r = w.roomId
+    | .roomlistDisinvite r => s.room = some r
     | _ => false
-  let closedPubs := (targets.filter closes).map (·.pub)
-  let sessions := w.sessions.filter (fun s => !closedPubs.contains s.pub)
-  let w1 := { w with sessions := sessions }
-  { world := if w1.roomExists then w1 else { w1 with props := "" },
-    events := targets.flatMap (fun s => if closes s then [⟨s.pub, ev⟩, ⟨s.pub, .closed⟩] else [⟨s.pub, ev⟩]) }
+  let closed := targets.filter closes
+  let closedPubs := closed.map (·.pub)
+  let internalGone := closed.any (·.kind = .internal)
+  let gone (s : Sess) : Bool := closedPubs.contains s.pub || (internalGone && s.kind = .virtual)
+  let sessions := w.sessions.filter (fun s => !gone s)
+  let stay (room : Option String) : List Sess := sessions.filter (fun x => room.isSome && x.room = room && x.connected)
+  { world := ({ w with sessions := sessions } : World).gc,
+    events := targets.flatMap (fun s => if closes s then [⟨s.pub, ev⟩, ⟨s.pub, .closed⟩] else [⟨s.pub, ev⟩]) ++
+      (w.sessions.filter gone).flatMap (fun s => (stay s.room).map (fun x => ⟨x.pub, .roomLeave⟩)) ++
+      (closed.filter (·.kind = .internal)).flatMap (fun s => (stay s.room).map (fun x => ⟨x.pub, .participantsUpdate⟩)) }
 
 def deliver (w : World) : Pub → CRes
-  | .user uid ev => if uid = "" then { world := w } else sendTo w (w.sessions.filter (·.user = uid)) ev
-  | .session sid (some ev) => sendTo w (w.sessions.filter (·.pub = sid)) ev
+  | .user uid ev => if uid = "" then { world := w } else sendTo w (w.sessions.filter (fun s => s.user = uid && s.kind = .client)) ev
+  | .session sid (some ev) =>
+    let c := sendTo w (w.sessions.filter (fun s => s.pub = sid && s.connected)) ev
+    -- VirtualSession.ProcessAsyncSessionMessage: a disinvite from its room becomes a hang-up order
+    -- for the internal client that added it; everything else is dropped
+    let hangup : List Event := match ev with
+      | .roomlistDisinvite r =>
+        (w.sessions.filter (fun s => s.pub = sid && s.kind = .virtual && s.room = some r)).flatMap (fun _ =>
+          (w.sessions.filter (·.kind = .internal)).map (fun i => ⟨i.pub, .control⟩))
+      | _ => []
+    { c with events := c.events ++ hangup }
   | .session _ none => { world := w }
   | .room room m => consumeRoom w room m
 
@@ -546,6 +593,42 @@ def deliverAll (w : World) : List Pub → CRes
     let c := deliver w p
     let c' := deliverAll c.world ps
     { world := c'.world, events := c.events ++ c'.events, crash := c.crash || c'.crash }
+
+/-! ## Coming back: locks
+
+The consumers above are functions: they return.  Their Go counterparts run on goroutines that live
+as long as the server (the hub main loop for update / delete / incall / participants, the room's bus
+subscriber, the sessions' subscribers); they return iff they do not panic (the failure branches
+above) and never wait for ever.  The only unbounded waits on these paths are mutex waits, and a
+mutex wait is unbounded only when somebody keeps the mutex: a path that leaves a function with the
+mutex still locked, or takes it a second time.  `Generated/LockBalance.lean` lists, for every
+function of the package, the paths that do (abstract interpretation of each function body, see
+tools/extract/lockbalance.go).  The list is compared with the reviewed one below. -/
+
+/-- Findings of the lock-balance walk on the reviewed tree, each with the reason why it is harmless.
+
+* `ClientSession.SubscribeRoomEvents` calls `doUnsubscribeRoomEvents` (which locks
+  `roomSessionIdLock`) while holding that lock -- on the path where `SetRoomSession` fails.  The only
+  implementation (`BuiltinRoomSessions.SetRoomSession`) never returns an error; a join, not a room
+  API request.  Latent. -/
+def reviewedLockFindings : List String :=
+  ["clientsession.go:ClientSession.SubscribeRoomEvents:reentrant:ClientSession.roomSessionIdLock:" ++
+   "held W, calls ClientSession.doUnsubscribeRoomEvents which locks it"]
+
+/-- Functions with lock operations that the room API path runs through (handler, room subscriber,
+hub main loop, delivery to the sessions): they must be among the analysed ones. -/
+def roomApiLockFunctions : List String :=
+  ["Room.UpdateProperties", "Room.PublishUsersInCallChanged", "Room.PublishUsersInCallChangedAll",
+   "Room.addInternalSessions", "Room.Close", "Room.HasSession", "Room.RemoveSession", "Room.AddSession",
+   "Room.notifyInternalRoomDeleted", "Hub.GetSessionByPublicId", "Hub.removeRoom",
+   "BuiltinRoomSessions.GetSessionId", "ClientSession.SendMessage", "ClientSession.LeaveCall"]
+
+open SigModel.Generated.LockBalance in
+/-- No function of the package leaves a mutex locked, takes one twice, or is beyond the walk --
+except the reviewed findings -- and the functions behind the room API were looked at. -/
+def locksBalanced : Bool :=
+  lockFindings == reviewedLockFindings && roomApiLockFunctions.all lockFunctions.contains &&
+  decide (lockFilesAnalysed > 0)
 
 /-! ## One request, end to end -/
 
